@@ -78,6 +78,8 @@ pub struct Cfg {
     pub held_letters: bool,
     /// Offer RereadHeld: read again into a pool buffer an operation handed out.
     pub reread_held: bool,
+    /// Offer CloneHeld (once per history).
+    pub clone_held: bool,
     /// The pool has already performed this many releases (multiple of the pool size).
     pub pool_shift: u16,
 }
@@ -110,6 +112,7 @@ impl Cfg {
             final_drop_ring_first: false,
             sqpoll: false,
             zc_error_notif: true,
+            clone_held: false,
             reread_held: false,
             held_letters: false,
             pool_shift: 0,
@@ -139,6 +142,8 @@ pub enum Action {
     Stdio(u8),
     /// Read again (variant `via`) into the first pool buffer handed out by operation `i`.
     RereadHeld(usize, u8),
+    /// `try_clone` the first descriptor handed out by operation `i`; the duplicate joins it.
+    CloneHeld(usize),
 }
 
 /// Completion outcome letters.
@@ -262,6 +267,7 @@ pub struct OpsWorld {
     /// (address, length) of every pool buffer by id.
     pool_bufs: Vec<(usize, u32)>,
     lost_reported: bool,
+    cloned: bool,
 }
 
 fn v(prop: &str, sig: &str, msg: String) -> Violation {
@@ -275,6 +281,7 @@ impl OpsWorld {
     pub fn new(cfg: Cfg) -> OpsWorld {
         let plan = simk::SetupPlan { c0_sq: cfg.c0_sq, c0_cq: cfg.c0_cq, ..Default::default() };
         simk::reset(plan);
+        crate::mapwatch::watch_fd(-1);
         simk::with(|k| k.zc_error_notif = cfg.zc_error_notif);
         talloc::set_on_free(Some(simk::on_free));
         let need_pool = cfg.kinds.iter().chain(cfg.preset.iter()).any(|k| k.needs_pool());
@@ -325,6 +332,7 @@ impl OpsWorld {
             sels: Vec::new(),
             pool_bufs: Vec::new(),
             lost_reported: false,
+            cloned: false,
         };
         BASE_FD_DIRECT.store(false, std::sync::atomic::Ordering::SeqCst);
         if w.cfg.fd_direct {
@@ -1266,6 +1274,13 @@ impl World for OpsWorld {
                 v.push((Action::Stdio(1), 1));
             }
         }
+        if self.cfg.clone_held && !self.cloned {
+            for i in 0..self.slots.len() {
+                if self.held_of(i).0.borrow().first().is_some_and(|fd| format!("{:?}", fd.kind()) == "File") {
+                    v.push((Action::CloneHeld(i), 0));
+                }
+            }
+        }
         if self.cfg.reread_held && self.created < self.cfg.max_ops + 2 {
             for i in 0..self.slots.len() {
                 if !self.held_of(i).1.borrow().is_empty() {
@@ -1339,6 +1354,27 @@ impl World for OpsWorld {
                     held: Default::default(),
                     prefix: Vec::new(),
                 });
+            }
+            Action::CloneHeld(i) => {
+                self.cloned = true;
+                let (fds, _) = self.held_of(*i);
+                let dup = talloc::track(|| fds.borrow()[0].try_clone());
+                match dup {
+                    Ok(fd) => {
+                        let raw = ops::raw_of(&fd);
+                        simk::with(|k| k.adopt_regular(raw));
+                        crate::mapwatch::watch_fd(raw);
+                        if unsafe { libc::fcntl(raw, libc::F_GETFD) } == -1 {
+                            self.report("C07", "clone-not-open", format!("try_clone returned {fd:?}, but descriptor {raw} is not open"));
+                        }
+                        if format!("{:?}", fd.kind()) != "File" {
+                            self.report("C07", "clone-wrong-kind", format!("try_clone of a regular descriptor returned {fd:?}"));
+                        }
+                        fds.borrow_mut().push(fd);
+                    }
+                    Err(e) => self.report("C07", "clone-failed", format!("try_clone of a regular descriptor failed: {e}")),
+                }
+                self.absorb_kernel_log();
             }
             Action::RereadHeld(i, via) => {
                 let (_, bufs) = self.held_of(*i);
